@@ -45,9 +45,12 @@ theorem chan_ctx_costs_nothing {st st' : State} (hs : step st (.arm (.recv chCtx
   rcases step_cases hs with ⟨v, h, _⟩ | ⟨v, h, _⟩ | ⟨h, _⟩ | ⟨c, h, _⟩ | ⟨h, _⟩ | ⟨v, rest, h, _⟩ | ⟨h, _⟩ | ⟨_, _, _, h⟩
   all_goals first | exact h | (simp [chCtx, chData] at h)
 
-/-- **Next returns once a value is buffered, the channel is closed or its context expired**: an arm
-that makes it return is enabled, and the condition persists until it does. First conjunct: `Next` is
-that one `select` and nothing else (regenerated control skeleton). -/
+/-- **Next returns once a value is buffered, the channel is closed or its context expired** — proved as:
+in any state (reachable or not) in which `Next` is pending and one of the three holds, (1) `Next` is that
+one `select` and nothing else (regenerated control skeleton); (2) an arm of the `select` is enabled whose
+step makes the call return (`parked = false` afterwards); (3) stability: after any label of the LTS the
+call has returned or one of the three still holds. "Returns" then needs the scheduler to run an arm that
+stays enabled (weak fairness, trusted — not proved). No measure is needed: every arm returns. -/
 theorem chan_next_never_stuck {st : State} (hp : st.parked = true)
     (hc : st.buf ≠ [] ∨ st.closed = true ∨ st.rctx = true) :
     Gen.Skeleton.chanNext = Model.Skeleton.chanNext ∧
@@ -77,6 +80,49 @@ theorem chan_next_never_stuck {st : State} (hp : st.parked = true)
     · exact Or.inl rfl
     · exact Or.inl rfl
     · exact Or.inl rfl
+
+/-- **What `Next` returns versus the logs (the `!ok` branch is load-bearing).** `completion st l` is the
+result with which `Next` returns in step `l` (if it does), read off the regenerated body of the data arm
+(`item, ok := <-s.c; if !ok { return zero, End }; return item, nil`) and of the context arm. For every step:
+* `Next` returns the value `v` exactly when `v` is appended to `delivered` in this step (popped from the
+  buffer, or handed over by a `put` on an unbuffered channel);
+* it returns `End` exactly in the step that sets `endReported`, which needs the channel closed **and**
+  drained (`!ok`), and delivers nothing;
+* it returns the context's error only from the context arm with an expired context; nothing else changes;
+* every other step (a buffered `put`, `close`, a call being started, a context expiring) returns nothing
+  and leaves `delivered` and `endReported` alone. -/
+theorem chan_next_result_matches_log {st st' : State} {l : Label} (hs : step st l = some st') :
+    (∃ v, completion st l = some (.val v) ∧ st'.delivered = st.delivered ++ [v] ∧ st'.endReported = st.endReported) ∨
+    (completion st l = some .fin ∧ st'.delivered = st.delivered ∧ st.closed = true ∧ st.buf = [] ∧
+      st'.endReported = true) ∨
+    (completion st l = some .ctx ∧ st.rctx = true ∧ st' = { st with parked := false }) ∨
+    (completion st l = none ∧ st'.delivered = st.delivered ∧ st'.endReported = st.endReported) := by
+  have hbody : chanNextBodies.lookup (.recv chData) =
+      some ["bind item,ok:=", "if !ok {", "return zero, End", "}", "return item, nil"] := by decide
+  have hctx : chanNextBodies.lookup (.recv chCtx) = some ["return zero, ctx.Err()"] := by decide
+  rcases step_cases hs with ⟨v, rfl, _, hlt, rfl⟩ | ⟨v, rfl, _, hlt, hcap, _, rfl⟩ | ⟨rfl, _, rfl⟩ | ⟨c, rfl, _, rfl⟩ |
+      ⟨rfl, _, rfl⟩ | ⟨v, rest, rfl, _, hb, rfl⟩ | ⟨rfl, _, hb, hcl, rfl⟩ | ⟨rfl, _, hr, rfl⟩
+  · refine Or.inr (Or.inr (Or.inr ⟨?_, rfl, rfl⟩))
+    have : ¬ st.cap = 0 := by omega
+    simp [completion, this]
+  · refine Or.inl ⟨v, ?_, rfl, rfl⟩
+    simp [completion, hcap, dataResult, hbody]
+  · exact Or.inr (Or.inr (Or.inr ⟨rfl, rfl, rfl⟩))
+  · exact Or.inr (Or.inr (Or.inr ⟨rfl, rfl, rfl⟩))
+  · exact Or.inr (Or.inr (Or.inr ⟨rfl, rfl, rfl⟩))
+  · refine Or.inl ⟨v, ?_, rfl, rfl⟩
+    simp [completion, dataResult, hbody, hb, chData]
+  · refine Or.inr (Or.inl ⟨?_, rfl, hcl, hb, rfl⟩)
+    simp [completion, dataResult, hbody, hb, chData]
+  · refine Or.inr (Or.inr (Or.inl ⟨?_, hr, rfl⟩))
+    simp [completion, hctx, chData, chCtx]
+
+/-- non-vacuity: a value popped, the end of a closed and drained channel, an expired context, a
+hand-over on an unbuffered channel -/
+example : completion { cap := 2, buf := [1, 2], parked := true } (.arm (.recv chData)) = some (.val 1) ∧
+    completion { cap := 2, closed := true, parked := true } (.arm (.recv chData)) = some .fin ∧
+    completion { cap := 2, parked := true, rctx := true } (.arm (.recv chCtx)) = some .ctx ∧
+    completion { cap := 0, parked := true } (.put 4) = some (.val 4) := by decide
 
 /-- non-vacuity: capacity 2; two values, a `Next` whose context is expired, a live `Next`, close, two
 more: delivered `[1, 2]`, then the end. -/
